@@ -2,11 +2,14 @@
   C02 — Redelivery and reordering never change the result or repeat finished work.
 
   Engine model facts that hold in ANY state, i.e. for every delivery order and every redelivery:
-  the status guards and the processed-mark that make duplicates inert.  Outcome determinism over whole runs
-  (final statuses equal the FIFO run's) is validated by the schedule differential, not proved (it needs the
-  driver invariant G2, see DESIGN.md).
+  the status guards and the processed-mark that make duplicates inert; and, along EVERY run of a jump-free
+  workflow (any delivery order, redeliveries, crashes at any commit, sweeps, a second worker delivering messages
+  while a task executes): a task whose result has been recorded keeps its status and is never executed again
+  (`recorded_task_never_reexecuted`).  Outcome determinism over whole runs (final statuses equal the FIFO run's)
+  is validated by the schedule differential, not proved (it needs the driver invariant G2, see DESIGN.md).
 -/
 import Stab.Lemmas.EngineClaim
+import Stab.Lemmas.EngineFrozen
 
 namespace Stab.Props.C02
 open Stab Stab.Engine
@@ -99,5 +102,50 @@ theorem completeStage_on_finished_stage_is_inert (c : Cfg) (s : State) (id i : N
     (h1 : (s.stage i).status ≠ .running) (h2 : (s.stage i).status ≠ .notStarted) (h3 : (s.stage i).status.isHalt = false) :
     hCompleteStage c s id i = [] := by
   simp [hCompleteStage, h1, h2, h3]
+
+/-! ### run level: a recorded result is final and is never executed again -/
+
+/-- **A task whose result has been recorded is never executed again, and keeps that result** — for every
+    jump-free workflow, every history `ops1` after which the task's durable status is a completed one, and every
+    continuation `ops2` (deliveries in any order, unacknowledged redeliveries, kills after any number of commits,
+    recovery sweeps, cancels, signals, a second worker delivering messages while a task executes; any length):
+    the number of executions of that task in the ledger and its status are the same after `ops1 ++ ops2` as after
+    `ops1`.  (With jumps the statement is per loop iteration and is false across a re-arm by design; the
+    stale-message hazards of jump loops are the known F4 family.) -/
+theorem recorded_task_never_reexecuted (c : Cfg) (hc : NoJumpCfg c) (ops1 ops2 : List Op) (i t : Nat)
+    (h : (taskStatus (run c ops1) i t).isComplete = true) :
+    execsOf (run c (ops1 ++ ops2)).ledger i t = execsOf (run c ops1).ledger i t ∧
+    taskStatus (run c (ops1 ++ ops2)) i t = taskStatus (run c ops1) i t := by
+  have hrun : run c (ops1 ++ ops2) = ops2.foldl (step c) (run c ops1) := by simp [run, List.foldl_append]
+  rw [hrun]
+  have := foldl_frozen c hc ops2 (run c ops1) i t _ _ (run_good c hc ops1) h ⟨rfl, rfl⟩
+  exact ⟨this.execs, this.status⟩
+
+/-- the same for one more operation from any reachable state (the inductive step, stated for reference) -/
+theorem recorded_task_frozen_step (c : Cfg) (hc : NoJumpCfg c) (ops : List Op) (op : Op) (i t : Nat)
+    (h : (taskStatus (run c ops) i t).isComplete = true) :
+    execsOf (step c (run c ops) op).ledger i t = execsOf (run c ops).ledger i t ∧
+    taskStatus (step c (run c ops) op) i t = taskStatus (run c ops) i t := by
+  have := step_frozen c hc (run c ops) op i t _ _ (run_good c hc ops) h ⟨rfl, rfl⟩
+  exact ⟨this.execs, this.status⟩
+
+-- non-vacuity: in the jump-free demo workflow the task of stage 0 is SUCCEEDED after six in-order deliveries, was
+-- executed once, and redelivering its RunTask / CompleteTask rows or sweeping afterwards is covered by the theorem
+def demoCfg : Cfg :=
+  { wfMaxj := none,
+    stages := [
+      { reqs := [], join := JoinType.and, threshold := 0, cont := false, failp := true, enabled := none, maxj := none,
+        tasks := [[Outcome.succ]] },
+      { reqs := [0], join := JoinType.and, threshold := 0, cont := false, failp := true, enabled := none, maxj := none,
+        tasks := [[Outcome.terminal]] }] }
+
+def demoOps : List Op := [.deliver 1, .deliver 2, .deliver 3, .deliver 4, .deliver 5, .deliver 6]
+
+example : (taskStatus (run demoCfg demoOps) 0 0).isComplete = true ∧ execsOf (run demoCfg demoOps).ledger 0 0 = 1 := by decide
+
+example : NoJumpCfg demoCfg := by
+  intro sc hsc script hs o ho t
+  simp [demoCfg] at hsc
+  rcases hsc with rfl | rfl <;> simp at hs <;> subst hs <;> simp at ho <;> subst ho <;> simp
 
 end Stab.Props.C02
